@@ -80,7 +80,8 @@ def run(ctx):
             "Sim": dict(cfg="OTR_GenSim.cfg", simulate=ctx.pick(220, 1500), depth=40)}
     if T:
         gens.update({"AKE": dict(cfg="OTR_GenAKE.cfg"), "Data": dict(cfg="OTR_GenData.cfg"), "SMPw": dict(cfg="OTR_GenSMP.cfg"),
-                     "FaultsW": dict(cfg="OTR_GenFaults.cfg"), "SMP2w": dict(cfg="OTR_GenSMP2.cfg"), "RequeryW": dict(cfg="OTR_GenRequery.cfg")})
+                     "FaultsW": dict(cfg="OTR_GenFaults.cfg"), "SMP2w": dict(cfg="OTR_GenSMP2.cfg"), "RequeryW": dict(cfg="OTR_GenRequery.cfg"),
+                     "CommitTamperW": dict(cfg="OTR_GenCommitTamper.cfg")})
 
     def genjob(k):
         return lambda: ctx.tlc(MODULE_GEN, workers=1, timeout=2400, count=False, note="behaviour generation", **gens[k])
@@ -88,6 +89,10 @@ def run(ctx):
     drv_env = {"VERIF_N": ctx.pick(50, 700), "VERIF_MUT": ctx.pick(60, 400), "VERIF_RAND": ctx.pick(150, 3000)}
     jobs = [("drivers", lambda: ctx.go_test("c47", "^TestDrivers$", env=drv_env, timeout=3000))]
     jobs += [("mc:" + c, mcjob(c)) for c in mc] + [("gen:" + k, genjob(k)) for k in gens]
+    # the code before otr b85d235 (AwaitingRevealSig entered before the D-H commit was parsed) survives only in this Doc
+    # configuration: TLC must still find the state without a D-H key that made the next commit panic
+    jobs.append(("doc:CommitState", lambda: ctx.tlc(MODULE_MC, cfg="OTR_DocCommitState.cfg", workers=1, timeout=2400, count=False,
+                                                     expect_violation=True, note="expected counterexample: pre-b85d235 commit handling reaches AwaitingRevealSig without a D-H key")))
     if T:
         # outside the property's scope (re-keying an encrypted conversation): the model predicts that a message sent between
         # the arrival of the peer's query and the completion of the new AKE is lost; documented counterexample, and the
@@ -107,8 +112,10 @@ def run(ctx):
             acts = sorted(set(r.coverage_zero) - set(EXPECT_UNUSED[c]) - {"Init"})
             if acts:
                 raise vlib.Infra("vacuity: actions never taken in OTR_%s: %s" % (c, acts))
+    if res["doc:CommitState"].violated != "NoNilKey":
+        raise vlib.Infra("the documented counterexample to NoNilKey (pre-repair commit handling) was not found (TLC: %r)" % res["doc:CommitState"].violated)
     if T and res["doc:RequeryLoss"].violated != "RequeryLosesNothing":
-        ctx.notes.append("the documented counterexample RequeryLosesNothing was not found (TLC: %r)" % res["doc:RequeryLoss"].violated)
+        raise vlib.Infra("the documented counterexample RequeryLosesNothing was not found (TLC: %r)" % res["doc:RequeryLoss"].violated)
     # ------------------------------------------------------------------ binding R: replay of TLC's behaviours
     rnd = random.Random(ctx.seed)
     cases = []
@@ -118,9 +125,9 @@ def run(ctx):
         if not r.ok:
             raise vlib.Infra("generator OTR_%s failed: %s" % (k, (r.cex or r.raw[-2000:])[:3000]))
         tr = [t for t in r.traces if t.get("h")]
-        if k in ("Data", "SMPw", "FaultsW", "SMP2w", "RequeryW"):
+        if k in ("Data", "SMPw", "FaultsW", "SMP2w", "RequeryW", "CommitTamperW"):
             tr = _maximal(tr)
-            cap = {"Data": 7000, "SMPw": 2500, "FaultsW": 7000, "SMP2w": 2500, "RequeryW": 2500}[k]
+            cap = {"Data": 7000, "SMPw": 2500, "FaultsW": 7000, "SMP2w": 2500, "RequeryW": 2500, "CommitTamperW": 2500}[k]
             if len(tr) > cap:
                 tr = rnd.sample(tr, cap)
         elif k == "Sim":
